@@ -562,7 +562,7 @@ func (s *Sched) switchFrom(t *Thread) {
 	}
 }
 
-const idleRounds = 100
+const idleRounds = 32
 
 // quiescent ends the execution because nothing can run any more: a deadlock if some thread is left
 // blocked - goroutines of the code under test that only wait for time (idleForever: asleep, or waiting
@@ -810,6 +810,17 @@ func (s *Sched) idleForever(x *Thread) bool {
 		}
 	}
 	return true
+}
+
+// IdleWakes returns how often the running thread has been woken from a sleep or a ticker wait while
+// nothing else could run (vtime lets the clock run faster for such a thread: it may oversleep).
+//
+//go:norace
+func IdleWakes() int {
+	if s := cur; s != nil && s.cur != nil {
+		return s.cur.idleWakes
+	}
+	return 0
 }
 
 // SleepPoint is the model of time.Sleep: like Gosched it offers the turn to everybody else (a loop
